@@ -8,7 +8,7 @@ from pyvc.contracts import contract, Contract, inline
 from pyvc.env import STUBS, R1, ClassModel
 from pyvc.smt import And, Or, Not, Implies, If, Min, Max, iv, fresh_int, fresh_bool, fresh_name, I, B, R, TRUE, FALSE, const_int
 from pyvc.values import (SInt, SBool, SReal, SNone, NONE, SStr, STuple, Ref, SymRef, HObj, HList, HDict, SExc, Opaque, SArr,
-                         SOpt, qvar, Unsupported)
+                         SOpt, qvar, Unsupported, StubV)
 from pyvc.shapes import IntShape, BoolShape, RealShape, ArrShape, SymRefShape, OptionShape, AnyStrShape, ListShape
 from pyvc.state import State
 from pyvc import strops
@@ -1504,3 +1504,142 @@ class HandleWinch(Contract):
                 ("not-daemon:nothing-happens", Implies(Not(daemon), And(o1.fields["_num_workers"].t == o0.fields["_num_workers"].t,
                                                                          z3.ForAll([p], sel(k1, p) == sel(k0, p))))),
                 ("only-TERM-is-sent", all_sig_same(st1, st0, TERM))]
+
+
+# ======================================================================================================
+# Arbiter.run: orchestration of the main loop (callees are the contracts above; here they are abstract steps that record an
+# event and may fail in every way their contracts allow)
+# ======================================================================================================
+class UnexpectedError(Exception):
+    """synthetic: any exception that is not StopIteration / KeyboardInterrupt / HaltServer / SystemExit"""
+
+
+STEP_ID = {n: k + 1 for k, n in enumerate(["start", "manage_workers", "maybe_promote_master", "sleep", "murder_workers", "wakeup", "stop",
+                                            "handle_hup", "handle_quit", "handle_int", "handle_ttin", "handle_ttou", "handle_usr1", "handle_usr2",
+                                            "handle_winch", "handle_term"])}
+HANDLERS = [n for n in STEP_ID if n.startswith("handle_")]
+ALLOWED_PREV = {"start": [0], "manage_workers": ["start", "murder_workers"], "maybe_promote_master": ["manage_workers", "wakeup", "maybe_promote_master"],
+                "sleep": ["maybe_promote_master"], "murder_workers": ["sleep"], "wakeup": HANDLERS, "stop": None}
+for _h in HANDLERS:
+    ALLOWED_PREV[_h] = ["maybe_promote_master"]
+
+
+def _run_ev(st, name):
+    """the steps of run() form a small state machine; `order_ok` records that every step so far followed an allowed one"""
+    g = st.ghost
+    allowed = ALLOWED_PREV.get(name)
+    if allowed is not None:
+        g["order_ok"] = And(g["order_ok"], Or(*[g["last"] == (STEP_ID[x] if x != 0 else 0) for x in allowed]))
+    g["last"] = iv(STEP_ID[name])
+    if name == "stop":
+        g["stop_calls"] = g["stop_calls"] + 1
+
+
+def _step(name, may_stop=False):
+    def f(ex, st, self_v, args, kwargs, node):
+        live = ex.env.repo.live("gunicorn.errors")
+        outs = []
+        ok = st.fork()
+        _run_ev(ok, name)
+        outs.append(ex.res(ok, NONE))
+        h = st.fork()
+        code = z3.Int("halt.status.%s" % name)
+        h.ghost["cause_kind"], h.ghost["cause_val"], h.ghost["cause_step"] = iv(1), code, iv(STEP_ID[name])
+        outs.append(ex.res_exc(h, SExc(live.HaltServer, (Opaque("reason"), SInt(code)), {"reason": Opaque("reason"), "exit_status": SInt(code)})))
+        u = st.fork()
+        u.ghost["cause_kind"], u.ghost["cause_step"] = iv(2), iv(STEP_ID[name])
+        outs.append(ex.res_exc(u, SExc(UnexpectedError)))
+        x = st.fork()
+        xc = z3.Int("exit.code.%s" % name)
+        x.ghost["cause_kind"], x.ghost["cause_val"] = iv(3), xc
+        outs.append(ex.res_exc(x, SExc(SystemExit, (SInt(xc),), {"code": SInt(xc)})))
+        if may_stop:
+            s2 = st.fork()
+            s2.ghost["cause_kind"] = iv(4)
+            outs.append(ex.res_exc(s2, SExc(StopIteration)))
+        return outs
+    return f
+
+
+def _halt_step(ex, st, self_v, args, kwargs, node):
+    status = kwargs.get("exit_status", args[1] if len(args) > 1 else SInt(0))
+    st.ghost["halt_calls"] = st.ghost["halt_calls"] + 1
+    st.ghost["halt_status"] = status.t
+    return [ex.res_exc(st, SExc(SystemExit, (status,), {"code": status}))]
+
+
+def _exit_step(ex, st, self_v, args, kwargs, node):
+    code = args[0] if args else SInt(0)
+    st.ghost["exit_calls"] = st.ghost["exit_calls"] + 1
+    return [ex.res_exc(st, SExc(SystemExit, (code,), {"code": code}))]
+
+
+RUN_STEPS = ["start", "manage_workers", "maybe_promote_master", "sleep", "murder_workers", "wakeup", "stop",
+             "handle_hup", "handle_quit", "handle_int", "handle_ttin", "handle_ttou", "handle_usr1", "handle_usr2", "handle_winch"]
+
+
+@contract("gunicorn.arbiter:Arbiter.run", props=("C03", "C04", "C11"))
+class ArbRun(Contract):
+    """the master loop: with no signal queued each round sleeps, then scans for hung workers, then restores the worker count
+    (in that order); a queued signal is dispatched to exactly its handler; the loop is left only through halt():
+    HaltServer(status) from ANY step - e.g. a worker that failed to boot, reported by reap_workers - ends the process with
+    exactly that status, TERM (StopIteration) with status 0, any unexpected exception with stop(False), pid file removal and
+    status -1; SystemExit from a step (a forked child leaving through sys.exit) passes through untouched"""
+
+    def cases(self, env):
+        import signal as _sg
+        from pyvc.shapes import ListShape
+        st = State()
+        # a bare arbiter: run() touches nothing but its own steps, the signal queue, the log and the pid file
+        env.use_class("gunicorn.arbiter", "Arbiter")
+        a = st.alloc(HObj("Arbiter", {"log": mk_logger(env, st), "cfg": mk_cfg(env, st), "proc_name": strops.fresh_str(st, "proc_name", True)}))
+        env.class_models["PidfileModel"] = _PidfileModel()
+        o = st.obj(a)
+        o.fields["pidfile"] = st.alloc(HObj("PidfileModel", {"g_unlinks": SInt(0)}))
+        for n in RUN_STEPS:
+            o.fields[n] = StubV("run." + n, a)
+            STUBS["run." + n] = _step(n, may_stop=False)
+        o.fields["handle_term"] = StubV("run.handle_term", a)
+        STUBS["run.handle_term"] = _step("handle_term", may_stop=True)
+        o.fields["halt"] = StubV("run.halt", a)
+        STUBS["run.halt"] = _halt_step
+        STUBS["sys.exit"] = _exit_step
+        STUBS["gunicorn.util._setproctitle"] = _setproctitle
+        seq = ListShape(IntShape()).fresh_seq(st, "SIG_QUEUE", view=True)
+        o.fields["SIG_QUEUE"] = st.alloc(HList(sym=seq))
+        st.ghost.update({"order_ok": TRUE, "last": iv(0), "halt_calls": iv(0), "halt_status": iv(-99), "stop_calls": iv(0), "exit_calls": iv(0)})
+        st.ghost["cause_kind"], st.ghost["cause_val"], st.ghost["cause_step"] = iv(0), iv(0), iv(0)
+        return [("loop", st, {"self": a}, {})]
+
+    def raises(self, c):
+        live = c.ex.env.repo.live("gunicorn.errors")
+        return [(SystemExit, None), (live.HaltServer, None), (UnexpectedError, None)]
+
+    def exc_post(self, c):
+        g = c.st.ghost
+        if c.exc.cls is not SystemExit:
+            # the only exceptions that may escape run(): raised by start() (before the loop is guarded) or by stop() inside
+            # the handler for an unexpected exception
+            return [("only-start()-or-the-emergency-stop()-may-let-an-exception-escape", Or(g["cause_step"] == STEP_ID["start"], g["cause_step"] == STEP_ID["stop"]))]
+        code = c.exc.fields.get("code")
+        if not isinstance(code, SInt):
+            return [("exit-code-is-an-integer", FALSE)]
+        kind, val = g["cause_kind"], g["cause_val"]
+        pf = c.st.obj(A(c).fields["pidfile"]).fields["g_unlinks"].t
+        return [("the-loop-is-left-only-because-a-step-raised", kind != 0),
+                ("steps-follow-the-round-structure(promote;sleep,murder,manage|handler,wakeup)", g["order_ok"]),
+                ("HaltServer=>halt-once-with-exactly-its-exit-status=process-exit-status", Implies(kind == 1, And(g["halt_calls"] == 1, g["halt_status"] == val, code.t == val))),
+                ("TERM=>halt-once-with-status-0", Implies(kind == 4, And(g["halt_calls"] == 1, g["halt_status"] == 0, code.t == 0))),
+                ("unexpected-exception=>stop(False)-once,no-halt,exit(-1),own-pid-file-removed-once",
+                 Implies(kind == 2, And(g["stop_calls"] == 1, g["halt_calls"] == 0, g["exit_calls"] == 1, code.t == -1, pf == 1))),
+                ("SystemExit-from-a-step-passes-through-untouched", Implies(kind == 3, And(code.t == val, g["halt_calls"] == 0, g["stop_calls"] == 0)))]
+
+    def post(self, c):
+        return [("run-never-returns", FALSE)]
+
+    loops = {0: dict(anchor="while True", cands=[
+        ("order_ok", lambda L: L.st.ghost["order_ok"]),
+        ("loop-head-follows-manage/wakeup/promote", lambda L: Or(*[L.st.ghost["last"] == STEP_ID[n] for n in ("manage_workers", "wakeup", "maybe_promote_master")])),
+        ("nothing-stopped-yet", lambda L: And(L.st.ghost["halt_calls"] == 0, L.st.ghost["stop_calls"] == 0, L.st.ghost["exit_calls"] == 0, L.st.ghost["cause_kind"] == 0,
+                                              L.st.obj(L.st.obj(L.self).fields["pidfile"]).fields["g_unlinks"].t == 0)),
+    ])}
